@@ -24,7 +24,7 @@ CRASHY = False          # every Application run already happens in its own forke
 RUN_TIMEOUT = 600
 NO_SHRINK = {'problem', 'nx', 'steps'}
 
-PROBLEMS = {'drop': [6, 8, 10], 'cavity': [5, 6, 8], 'tg': [6, 8, 10], 'sod': [20, 40, 60], 'adapth': [8, 10, 12]}
+PROBLEMS = {'drop': [6, 8, 10], 'cavity': [5, 6, 8], 'tg': [6, 8, 10], 'sod': [20, 40, 60], 'adapth': [8, 10, 12], 'impact': [6, 8, 10]}
 NNPS = ['ll', 'box', 'sh', 'esh', 'ci', 'sfc', 'tree', 'comp_tree', 'strat_hash', 'strat_sfc']
 # the classes that implement get_spatially_ordered_indices; the others refuse --reorder-freq with NotImplementedError
 REORDER = {'ll', 'box', 'ci', 'sfc', 'strat_sfc', 'tree', 'comp_tree'}
@@ -32,7 +32,7 @@ STATE_PROPS = ['x', 'y', 'z', 'u', 'v', 'w', 'rho', 'p', 'h', 'm', 'e']
 
 PROPS = {
     'C05': dict(
-        rule=('one run = one shipped problem (free-surface elliptical drop / wall-bounded cavity with two arrays / periodic Taylor-Green / 1-D shock tube in a mirror domain with variable h / a free-surface block whose h changes inside the evaluation, nested update_nnps groups) '
+        rule=('one run = one shipped problem (free-surface elliptical drop / wall-bounded cavity with two arrays / periodic Taylor-Green / 1-D shock tube in a mirror domain with variable h / a free-surface block whose h changes inside the evaluation, nested update_nnps groups / a fluid block that reaches a fixed bed only after some steps) '
               'run through Application.run with a drawn configuration (--nnps and its knobs, --cache-nnps, --sort-gids, --reorder-freq, '
               'valid or invalid gids, and the schedule: serial, real OpenMP with 1-16 threads, or the simulated scheduler with k threads, '
               'drawn chunking / chunk-to-thread assignment / global execution order) compared with a baseline run (ll, no cache, serial, '
@@ -55,7 +55,7 @@ PROPS = {
 }
 PROBES = {'C05': ['sim_schedule_runs', 'real_openmp_runs', 'cache_on', 'sorted_runs', 'reorder_runs', 'reorder_on_periodic',
                   'cross_thread_cache_use', 'write_set_chunks_checked', 'bit_identical_checked', 'repeat_checked',
-                  'multi_array_problem', 'reorder_on_mirror']}
+                  'multi_array_problem', 'reorder_on_mirror', 'arrays_start_to_interact_late']}
 
 _BASE = {}
 
@@ -247,9 +247,9 @@ def prepare(prop, tier):
 
 
 def gen(t, prop, tier):
-    problem = t.wchoice([('drop', 3), ('cavity', 4), ('tg', 4), ('sod', 3), ('adapth', 3)])
+    problem = t.wchoice([('drop', 3), ('cavity', 4), ('tg', 4), ('sod', 3), ('adapth', 3), ('impact', 3)])
     nx = t.choice(PROBLEMS[problem])
-    steps = t.choice([2, 3, 5, 8])
+    steps = t.choice([2, 3, 5, 8]) if problem != 'impact' else t.choice([3, 6, 8, 10])
     nnps = t.choice(NNPS)
     knobs = {}
     if nnps == 'esh':
@@ -367,8 +367,10 @@ def execute(sc, prop):
             probe('reorder_on_periodic')
         if problem == 'sod':
             probe('reorder_on_mirror')
-    if problem == 'cavity':
+    if problem in ('cavity', 'impact'):
         probe('multi_array_problem')
+    if problem == 'impact' and steps >= 5:
+        probe('arrays_start_to_interact_late')
     for name, d in res.items():
         if not d['nreal_first']:
             violate('real-particles-not-first', 'array %s: real particles are not the first num_real_particles at the end of the run' % name)
